@@ -679,11 +679,11 @@ def _fetch_and_resolve(
 def predict_externalize_bytes_for_collector(out: OutputCollector, config: ExternalLocationConfig) -> int:
     """Predict the external upload size if :func:`maybe_externalize_collector` ran now.
 
-    Returns the data batch's logical buffer size when externalisation
-    would fire (storage configured + threshold met), else ``0``.  The
-    real upload includes IPC framing for log + data batches and may
-    differ slightly; this is a lower-bound estimate suitable for
-    pre-flight cap checks.
+    Returns the size of the IPC stream that would be uploaded (log + data
+    batches with their framing) when externalisation would fire (storage
+    configured + threshold met), else ``0``.  Object compression is not
+    applied to the estimate: caps are charged the raw IPC size, as the
+    upload helpers report it.
 
     Used by HTTP dispatch paths to refuse a violating upload BEFORE
     incurring the storage round-trip — the operator's intent in setting
@@ -699,7 +699,35 @@ def predict_externalize_bytes_for_collector(out: OutputCollector, config: Extern
     size = data_ab.batch.get_total_buffer_size()
     if size < config.externalize_threshold_bytes:
         return 0
-    return size
+    return _framed_ipc_size(out.output_schema, [(ab.batch, ab.custom_metadata) for ab in out.batches])
+
+
+def _framed_ipc_size(schema: pa.Schema, batches: list[tuple[pa.RecordBatch, pa.KeyValueMetadata | None]]) -> int:
+    """Return the exact size of the IPC stream the upload helpers serialise.
+
+    The logical buffer size leaves out the schema message, per-batch
+    metadata (log text, state tokens), padding and the end-of-stream
+    marker -- several hundred bytes that a cap pre-flight must count, or
+    a payload that only *frames* past the cap is uploaded first and
+    refused afterwards (or, on the producer path, not refused at all).
+    ``MockOutputStream`` counts bytes without materialising them.
+
+    Args:
+        schema: Schema of the IPC stream.
+        batches: ``(batch, custom_metadata)`` pairs in write order.
+
+    Returns:
+        Number of bytes the serialised IPC stream occupies.
+
+    """
+    sink = pa.MockOutputStream()
+    with new_ipc_stream(sink, schema) as writer:
+        for batch, custom_metadata in batches:
+            if custom_metadata is not None:
+                writer.write_batch(batch, custom_metadata=custom_metadata)
+            else:
+                writer.write_batch(batch)
+    return int(sink.size())
 
 
 def predict_externalize_bytes_for_batch(batch: pa.RecordBatch, config: ExternalLocationConfig) -> int:
@@ -716,7 +744,7 @@ def predict_externalize_bytes_for_batch(batch: pa.RecordBatch, config: ExternalL
     size = batch.get_total_buffer_size()
     if size < config.externalize_threshold_bytes:
         return 0
-    return size
+    return _framed_ipc_size(batch.schema, [(batch, None)])
 
 
 def maybe_externalize_collector(
